@@ -257,6 +257,19 @@ def run(prog, rep):
     guarded(rep, "C06.R2", "crate::wrap_algorithms::wrap_first_fit", lambda: _first_fit_chain(prog, rep))
     if has_feature(prog, "smawk"):
         guarded(rep, "C06.R3", "crate::wrap_algorithms::optimal_fit::wrap_optimal_fit", lambda: _optimal_chain(prog, rep))
+    if not _IN_LEMMA[0]:
+        # the partition contract also holds for the public entry point WrapAlgorithm::wrap, which must hand the
+        # selected algorithm's arrangement back unchanged on every path
+        lemmas.load_all()
+        st = lemmas.status(prog, "DISPATCH")
+        if st == "ok":
+            rep.ok("C06.R5", "crate", "lemma DISPATCH (C07.R3 / C03.R5) holds in this run", "evaluated: ok", nontrivial=False)
+        else:
+            rep.violation("C06.R5", "crate", "lemma:DISPATCH", "crate", "lemma DISPATCH is %s in this run: WrapAlgorithm::wrap does not "
+                          "return the selected algorithm's arrangement unchanged on every path" % st)
+
+
+_IN_LEMMA = [False]
 
 
 def _lemma(rule):
